@@ -478,6 +478,11 @@ def strat_whittaker(draw, kind):
             "theta": None if nload == 0 else [_theta_w(g) for _ in range(nload)]}
     if kind == "model":
         desc["range"] = [g.u(0.001, 0.5), g.u(0.5, 1.2)]
+        if g.r.random() < 0.5:
+            # the same model (same K in 1/Pa, so numerically identical pressures) analysed for another adsorbate first
+            c = tab[int(g.r.integers(0, len(tab)))]
+            if c[0] != e[0]:
+                desc["companion"] = {"adsorbate": c[0], "T": K.temperature_for(c, g.u(0.0, 1.0))}
     else:
         desc["fit"] = fit
         desc["npts"] = int(g.r.integers(12, 61))
@@ -521,6 +526,19 @@ def check_whittaker_model(desc, ctx):
     p_sat = ru.p_sat(fluid, T)
     Kpa = desc["kpsat"] / p_sat
     n_m, t, model = desc["n_m"], desc["t"], desc["model"]
+    comp = desc.get("companion")
+    if comp and desc["theta"] is not None:
+        cdesc = dict(desc, adsorbate=comp["adsorbate"], T=comp["T"])
+        cparams = {"K": Kpa, "n_m": n_m} if model == "Langmuir" else {"K": Kpa, "n_m": n_m, "t": t}
+        cm = get_isotherm_model(model, parameters=cparams, pressure_range=(1e-4 * p_sat, p_sat),
+                                loading_range=(desc["range"][0] * n_m, desc["range"][1] * n_m))
+        ciso = ModelIsotherm(model=cm, **iso_kwargs(cdesc, comp["T"]))
+        cload = [th * n_m for th in desc["theta"]]
+        cres = enthalpy_sorption_whittaker(ciso, loading=list(cload))
+        cwhat = (f"Whittaker on {model} ModelIsotherm ({comp['adsorbate']} at {comp['T']!r} K, analysed before the same model "
+                 f"for {desc['adsorbate']})")
+        if _judge_whittaker(cdesc, ctx, cres, cload, n_m, Kpa, t, cwhat) is not None:
+            ctx.label("companion_first")
     params = {"K": Kpa, "n_m": n_m} if model == "Langmuir" else {"K": Kpa, "n_m": n_m, "t": t}
     lr = (desc["range"][0] * n_m, desc["range"][1] * n_m)
     m = get_isotherm_model(model, parameters=params, pressure_range=(1e-4 * p_sat, p_sat), loading_range=lr)
